@@ -78,7 +78,7 @@ theorem octLoop_fits (buf : Bytes) : ∀ d i acc v, acc < U64 → octLoop buf i 
           omega
       · simp only [R.ok.injEq] at h; omega
 
-theorem binLoop_safe (fixed neg : Bool) (buf : Bytes) : ∀ d i r, i + d ≤ buf.length → (binLoop fixed neg buf i d r).safe := by
+theorem binLoop_safe (neg : Bool) (buf : Bytes) : ∀ d i r, i + d ≤ buf.length → (binLoop neg buf i d r).safe := by
   intro d
   induction d with
   | zero => intro i r _; simp [binLoop]
@@ -93,29 +93,29 @@ theorem readOctal_safe (buf : Bytes) (i d : Nat) (h : i + d ≤ buf.length) : (r
   simp only [readOctal, h1]
   exact octLoop_safe buf d' j 0 (by omega)
 
-theorem readBinary_safe (fixed : Bool) (buf : Bytes) (i d : Nat) (h : i + d ≤ buf.length) : (readBinary fixed buf i d).safe := by
+theorem readBinary_safe (buf : Bytes) (i d : Nat) (h : i + d ≤ buf.length) : (readBinary buf i d).safe := by
   cases d with
   | zero => simp [readBinary]
   | succ d =>
     obtain ⟨c, hc⟩ := get_some (buf := buf) (i := i) (by omega)
     simp only [readBinary, hc]
     split
-    · have := binLoop_safe fixed true buf d (i + 1) (U64 - 1) (by omega)
-      cases hb : binLoop fixed true buf (i + 1) d (U64 - 1) with
+    · have := binLoop_safe true buf d (i + 1) (U64 - 1) (by omega)
+      cases hb : binLoop true buf (i + 1) d (U64 - 1) with
       | ok r => simp only []; split <;> simp
       | fail c => simp
       | oob => rw [hb] at this; exact this.elim
       | spin => rw [hb] at this; exact this.elim
     · split
       · simp
-      · exact binLoop_safe fixed false buf d (i + 1) _ (by omega)
+      · exact binLoop_safe false buf d (i + 1) _ (by omega)
 
-theorem readNumber_safe (fixed : Bool) (buf : Bytes) (i d : Nat) (hd : 0 < d) (h : i + d ≤ buf.length) :
-    (readNumber fixed buf i d).safe := by
+theorem readNumber_safe (buf : Bytes) (i d : Nat) (hd : 0 < d) (h : i + d ≤ buf.length) :
+    (readNumber buf i d).safe := by
   obtain ⟨c, hc⟩ := get_some (buf := buf) (i := i) (by omega)
   simp only [readNumber, hc]
   split
-  · exact readBinary_safe fixed buf i d h
+  · exact readBinary_safe buf i d h
   · exact readOctal_safe buf i d h
 
 /-! ### hex / base64 -/
